@@ -658,7 +658,7 @@ func genHist(w *bufio.Writer, r *rng, id int) {
 					fin.tys = append(fin.tys, r.intn(10))
 				}
 			}
-			fmt.Fprintf(w, "run %d redefine\nrdfin %s\n", k, fin.String())
+			fmt.Fprintf(w, "run %d redefine\nrdfin %s %d\n", k, fin.String(), nestOf(fin))
 			w.Flush()
 			before := 0
 			for _, f := range sc.Funcs {
